@@ -48,6 +48,11 @@ def small_numbers():
     return out
 
 
+import sys as _sys
+if hasattr(_sys, 'set_int_max_str_digits'):
+    _sys.set_int_max_str_digits(0)     # exact oracle: numbers with thousands of digits
+
+
 class Prop:
     id = 'C13'
     level = 'proof'
